@@ -367,3 +367,6 @@ package token
 //@   ensures unlocked: !held(state.mu)
 //@   ensures table: tablewf(state)
 //@   invariant loop 1 locked: held(state.mu) && tablewf(state) && same(state.tokens, atcall("load", 1, state.tokens))
+//@   -- C16: when the sweep cannot be written to the file, the table in memory is forgotten (it is read again from the file, which still
+//@   -- holds the swept tokens), as after a failed Update or Delete: memory never differs from the file
+//@   ensures failed-forgets: result != nil ==> isnil(state.tokens)
